@@ -366,7 +366,10 @@ def to_expr(t):
 #        push_expr(t.em)
         return t
     elif type(t) == int or type(t) == ValueInt:
-        return expr(ExprLiteralModel(int(t), True, 32))
+        v = int(t)
+        # A value outside the signed 32-bit range gets the width it needs
+        w = 32 if -(1 << 31) <= v < (1 << 31) else v.bit_length() + 1
+        return expr(ExprLiteralModel(v, True, w))
     elif type(t) == float:
         return expr(ExprLiteralModel(int(round(t)), True, 32))
     elif isinstance(type(t), (EnumMeta,IntEnum)):
